@@ -181,6 +181,16 @@ func init() {
 	mEntry("WindowWhen+MergeAll", 2, Stores, NewWindowMerged, func(b *B) ro.Observable[int] {
 		return ro.MergeAll[int]()(ro.WindowWhen[int](b.S(1))(b.S(0)))
 	}, "WindowWhen")
+	// the windows themselves made visible: window k (k >= 1) announces itself with -100-k as it is delivered,
+	// every window says -200-k when it completes
+	mEntry("WindowWhen(marked)", 2, Stores, NewWindowMarked, func(b *B) ro.Observable[int] {
+		return ro.MergeAll[int]()(ro.MapI(func(w ro.Observable[int], k int64) ro.Observable[int] {
+			if k == 0 {
+				return ro.EndWith(-200)(w)
+			}
+			return ro.StartWith(-100 - int(k))(ro.EndWith(-200 - int(k))(w))
+		})(ro.WindowWhen[int](b.S(1))(b.S(0))))
+	}, "WindowWhen")
 	mEntry("SampleWhen", 2, Stores, NewSampleWhen, func(b *B) ro.Observable[int] { return ro.SampleWhen[int](b.S(1))(b.S(0)) })
 	mEntryO("ThrottleWhen", 2, 0, NewThrottleWhen, []int{1, 0}, func(b *B) ro.Observable[int] { return ro.ThrottleWhen[int](b.S(1))(b.S(0)) })
 	mEntry("SequenceEqual", 2, Stores, NewSequenceEqual, func(b *B) ro.Observable[bool] { return ro.SequenceEqual(b.S(1))(b.S(0)) })
